@@ -87,6 +87,40 @@ def inv_epilogue(obj):
     return ("_ia = {o}.scale({o}._domain[0])\n_ib = {o}.scale({o}._domain[1])\n_ix = {o}.scale(xq)\n_iy = {o}.invert(yq)\n").format(o=obj)
 
 
+# replay of a refuted Inv-scale clause of domain()/range()/clamp()/rescale(): the contract's entry state and epilogue as a call
+# history on the real class - a scale that has mapped and inverted values is re-configured, then probed
+_REPLAY_INV = """
+def replay(m):
+    import collections
+    m = collections.defaultdict(int, m)
+    from labella.scale import LinearScale
+    s = LinearScale()
+    s.clamp(%(clamp)s)
+    s.domain([m["s_a"], m["s_b"]]); s.range([m["s_r0"], m["s_r1"]])
+    s.scale(m["s_x0"]); s.invert(m["s_y0"])                      # the scale has been used
+    hist = "LinearScale().clamp(%(clamp)s).domain(%%r).range(%%r); scale(%%r); invert(%%r); " %% (
+        [m["s_a"], m["s_b"]], [m["s_r0"], m["s_r1"]], m["s_x0"], m["s_y0"])
+    %(call)s
+    d, r = s.domain(), s.range()
+    if d[0] == d[1] or r[0] == r[1]:
+        return False, "degenerate after the call", hist
+    def aff(x, a, b, p, q):
+        t = (x - a) / (b - a)
+        %(clip)s
+        return p * (1 - t) + q * t
+    xq, yq = m["xq"], m["yq"]
+    want_x, want_y = aff(xq, d[0], d[1], r[0], r[1]), aff(yq, r[0], r[1], d[0], d[1])
+    got_x, got_y = s.scale(xq), s.invert(yq)
+    tol = lambda w: 1e-9 * max(1.0, abs(w))
+    failed = abs(got_x - want_x) > tol(want_x) or abs(got_y - want_y) > tol(want_y) or abs(s.scale(d[0]) - r[0]) > tol(r[0]) or abs(s.scale(d[1]) - r[1]) > tol(r[1])
+    return failed, "domain %%r range %%r: scale(%%r) = %%r (want %%r), invert(%%r) = %%r (want %%r), scale(ends) = %%r" %% (
+        d, r, xq, got_x, want_x, yq, got_y, want_y, [s.scale(d[0]), s.scale(d[1])]), hist
+"""
+_REPLAY_CALLS = {"domain": 's.domain([m["x_0"], m["x_1"]]); hist += "domain(%r)" % ([m["x_0"], m["x_1"]],)',
+                 "range": 's.range([m["x_0"], m["x_1"]]); hist += "range(%r)" % ([m["x_0"], m["x_1"]],)',
+                 "rescale": 's.rescale(); hist += "rescale()"'}
+
+
 def _attach_inv_epilogues():
     """every contract that states Inv-scale gets the probe parameters and the epilogue that makes the calls"""
     for k, c in CONTRACTS.items():
@@ -95,6 +129,11 @@ def _attach_inv_epilogues():
             obj = "result" if k.startswith("scale.LinearScale.copy@") else "self"
             c["epilogue"] = inv_epilogue(obj)
             c["params"] = dict(c.get("params", {}), xq="real", yq="real")
+            meth = k.split(".")[-1].split("@")[0]
+            if meth in _REPLAY_CALLS and "replay" not in c and "shared_list" not in k:
+                clamp = k.endswith("@clamp")
+                c["replay"] = _REPLAY_INV % dict(clamp=clamp, call=_REPLAY_CALLS[meth],
+                                                 clip="t = max(0.0, min(1.0, t))" if clamp else "pass")
 
 
 def _shared_range(E, P, env, setup, get_linear=lambda p, s: s):
